@@ -40,7 +40,7 @@ The property under study (it is supposed to hold for the project):
 YOUR TASK: produce {n} different, independent, REALISTIC changes ("mutants") to the project's source (files under monkeytype/ only, never tests) such that each one
   (1) still imports/compiles and the existing test-suite result is unchanged (the same tests pass, the same 1 fails) — run the whole suite to be sure;
   (2) BREAKS the property above (makes MonkeyType violate the statement for at least one input / history / configuration);
-  (3) is the kind of plausible regression a developer could introduce (refactoring slip, off-by-one, wrong variable, dropped special case, changed default, caching, reordered statements, too-narrow/too-broad condition), not sabotage that ordinary use exposes at once. Prefer changes that need something specific to manifest: a particular combination of input shapes, a multi-step sequence of operations, an unusual but legitimate input, a particular configuration value, or two cooperating sites that each look fine alone. Each mutant should break the property through a DIFFERENT mechanism / code location. Small diffs (1-15 changed lines) are best.
+  (3) is the kind of plausible regression a developer could introduce (refactoring slip, off-by-one, wrong variable, dropped special case, changed default, caching, reordered statements, too-narrow/too-broad condition), not sabotage that ordinary use exposes at once. Prefer changes that need something specific to manifest: a particular combination of input shapes, a multi-step sequence of operations, an unusual but legitimate input, a particular configuration value, or two cooperating sites that each look fine alone. Each mutant should break the property through a DIFFERENT mechanism / code location. Small diffs (1-15 changed lines) are best. At least one of your mutants must consist of two cooperating edits in different functions or files (each harmless alone), and at least one must only manifest after a multi-step history (several calls, batches, CLI invocations or tracing sessions in one process, or two processes), or under a particular environment answer (an error raised by a collaborator, a rarely used option, an unusual but legitimate Python construct).
 
 For each mutant i (1..{n}) write into {OUT}/{pid}/m<i>/ :
   * patch.diff  — `git diff` of the worktree against HEAD for this mutant alone (must apply with `git apply` to a clean checkout);
